@@ -119,7 +119,7 @@ def failed_handshakes(chk):
     """Arrivals that pass admission but never become established connections (a dialer that completes TLS and then
     cannot be handshaken with) must not count: afterwards the node admits exactly as many unknown peers as its limit."""
     quick = chk.tier == "quick"
-    scen, metas = [], []
+    scen, metas, models = [], [], []
     for i in range(4 if quick else 40):
         rng = chk.rng
         limit = rng.choice([1, 2, 3])
@@ -136,11 +136,18 @@ def failed_handshakes(chk):
         cmds += ["peers 0"]
         scen.append("simnet " + " ; ".join(cmds))
         metas.append((limit, fails))
+        spec = "100:10:-:%d;" % limit + ";".join("%d:10:-:-" % j for j in range(1, limit + 2))
+        models.append("netmodel %s | %s" % (spec, " / ".join(["F %d 100" % (50 + f) for f in range(fails)] + ["D %d 100" % j for j in range(1, limit + 2)])))
     outs, parsed = simnet.run_scenarios(chk, scen, "fabric:failed-handshakes-then-admission")
-    for sc, res, (limit, fails) in zip(scen, parsed, metas):
+    for sc, res, (limit, fails), mo in zip(scen, parsed, metas, run_model(models)):
         if res is None:
             continue
         chk.nontriv(sc)
+        # NetModel.v (FailedArrival is a no-op): dial results of the unknown dialers
+        mres = [x.split(" L=")[0] for x in mo.split(" | ")][fails:]
+        ires = [("ok100" if x.startswith("ok") else "err") for c, x in zip([c.strip() for c in sc[len("simnet "):].split(" ; ")][1:], res) if c.startswith("connect ") and c.endswith(" 0")]
+        if ires != mres:
+            chk.disagree(sc, "dial results %s" % ires, "NetModel.v: %s" % mres, "simnet/netmodel-failed-arrivals")
         cl = [c.strip() for c in sc[len("simnet "):].split(" ; ")][1:]
         dials = [x for c, x in zip(cl, res) if c.startswith("connect ") and c.endswith(" 0")]
         adv = [x for c, x in zip(cl, res) if c.startswith("advdial")]
